@@ -78,7 +78,7 @@ def sel_case(draw, tier):
         # identity is only meaningful for singletons; cells and value are separate copies in the petl table
         c["value"] = draw(st.sampled_from([None, True, False]))
     if sel.startswith("select-"):
-        c["missing"] = draw(st.sampled_from([None, "M"]))
+        c["missing"] = draw(st.sampled_from([None, "M", None, "M", 0, "", False]))
     if contains:
         c["value"] = draw(st.sampled_from(p + ["x", "a"]))
     return c
